@@ -146,6 +146,47 @@ def check(ctx: Ctx) -> str:
     pat = repo.func("compiler:CodeGenerator.pop_assign_tracking")
     s = ast.unparse(pat.node)
     ctx.check("public_names = [x for x in vars if x[:1] != '_']" in s and "not frame.block_frame and (not frame.loop_frame) and public_names" in s, "pop_assign_tracking:public", "compiler:CodeGenerator.pop_assign_tracking", "public filter", "only names not starting with '_' assigned at template top level are exported", pat.loc())
+    # def-use: every name written into an exported_vars line comes from the filtered list
+    import builtins
+
+    def _resolve_names(fn: ast.AST, e: ast.AST, depth: int = 0) -> set[str]:
+        out: set[str] = set()
+        for n_ in ast.walk(e):
+            if isinstance(n_, ast.Name) and isinstance(n_.ctx, ast.Load):
+                srcs = [a for a in ast.walk(fn) if isinstance(a, ast.Assign) and len(a.targets) == 1 and isinstance(a.targets[0], ast.Name) and a.targets[0].id == n_.id]
+                if not srcs and hasattr(builtins, n_.id):
+                    continue  # a real builtin (repr, sorted, map), not a local shadowing one (`vars`)
+                # follow plain local temporaries; a comprehension or a value taken from the
+                # generator's own state is an origin
+                if len(srcs) == 1 and depth < 4 and not isinstance(srcs[0].value, ast.ListComp) and "self." not in ast.unparse(srcs[0].value):
+                    out |= _resolve_names(fn, srcs[0].value, depth + 1)
+                else:
+                    out.add(n_.id)
+        return out
+
+    nexp = 0
+    for c in astq.calls(pat.node):
+        if astq.callee(c) not in ("self.writeline", "self.write") or not c.args or not isinstance(c.args[0], ast.JoinedStr):
+            continue
+        js = c.args[0]
+        lit = "".join(v.value for v in js.values if isinstance(v, ast.Constant))
+        if "exported_vars" not in lit:
+            continue
+        for v in js.values:
+            if isinstance(v, ast.FormattedValue):
+                nexp += 1
+                origin = _resolve_names(pat.node, v.value)
+                ctx.check(origin <= {"public_names"}, f"pop_assign_tracking:export-origin:{nexp}", "compiler:CodeGenerator.pop_assign_tracking", f"exported names taken from {sorted(origin)}",
+                          f"the names written into `{lit.strip()[:40]}...` come from {sorted(origin)}, not only from the list filtered by the leading-underscore test: a private name assigned in a multi-target `{{% set a, b, _c = ... %}}` becomes an attribute of the imported module", pat.loc(c), detail={"origin": sorted(origin)})
+    ctx.floor("exported_vars emission sites in pop_assign_tracking", nexp, 2)
+    pn = [a for a in ast.walk(pat.node) if isinstance(a, ast.Assign) and any(isinstance(t_, ast.Name) and t_.id == "public_names" for t_ in a.targets)]
+    okf = False
+    if len(pn) == 1 and isinstance(pn[0].value, ast.ListComp) and len(pn[0].value.generators) == 1:
+        g = pn[0].value.generators[0]
+        tv = ast.unparse(g.target)
+        tests = [ast.unparse(i) for i in g.ifs]
+        okf = ast.unparse(pn[0].value.elt) == tv and ast.unparse(g.iter) == "vars" and tests in ([f"{tv}[:1] != '_'"], [f"not {tv}.startswith('_')"], [f"{tv}[0] != '_'"])
+    ctx.check(okf, "pop_assign_tracking:filter", "compiler:CodeGenerator.pop_assign_tracking", "public_names filter", "public_names must be the assigned names without a leading underscore", pat.loc())
     tm = repo.func("environment:TemplateModule.__init__")
     ctx.check("self.__dict__.update(context.get_exported())" in ast.unparse(tm.node), "TemplateModule:exports", "environment:TemplateModule.__init__", "module attributes", "a template module must expose exactly context.get_exported()", tm.loc())
     ge = repo.func("runtime:Context.get_exported")
